@@ -12,7 +12,7 @@
 (* start template in at most B choice points, at every nesting position.   *)
 (* Each finished derivation is written once as one NDJSON line.            *)
 (***************************************************************************)
-EXTENDS GDML, TLC, Json, CSV
+EXTENDS GDDL, TLC, Json, CSV
 CONSTANTS Budget,      \* number of non-default choices per sentence
           StartNT,     \* start nonterminal
           StartFree,   \* TRUE: the choice of the start template is free (statement kinds)
@@ -26,7 +26,8 @@ vars == <<work, tape, budget>>
 Templates(nt) ==
   LET e == ExprTemplates(nt) IN IF e # <<>> THEN e
   ELSE LET q == QueryTemplates(nt) IN IF q # <<>> THEN q
-  ELSE DMLTemplates(nt)
+  ELSE LET d == DMLTemplates(nt) IN IF d # <<>> THEN d
+  ELSE DDLTemplates(nt)
 
 \* templates selectable at nonterminal nt in the current mode
 Selectable(nt, j) == LET t == Templates(nt)[j] IN
